@@ -14,6 +14,7 @@ FAULTS = {}       # (plugin_name, callback) -> set of call indexes | '*'
 CALLS = {}        # (plugin_name, callback) -> number of calls so far
 INSTANCES = {}    # plugin_name -> [instances]
 HOOK = [None]     # optional callable(plugin_name, callback, payload) run at every record (for rigs)
+_tls = threading.local()   # .idx = call index of the record the hook is running for (per thread)
 
 
 class PluginFault(Exception):
@@ -38,10 +39,16 @@ def _rec(name, callback, payload=None):
         plan = FAULTS.get(k)
     hook = HOOK[0]
     if hook is not None:
+        _tls.idx = idx
         hook(name, callback, payload)
     if plan is not None and (plan == '*' or idx in plan):
         raise PluginFault('%s.%s call %d' % (name, callback, idx))
     return idx
+
+
+def hook_call_index():
+    """Inside a HOOK callback: the per-(plugin, callback) index of the call being recorded (thread safe)."""
+    return _tls.idx
 
 
 def events(name=None, callback=None):
